@@ -1,14 +1,18 @@
 use crate::runner::Property;
 
 pub mod c07;
+pub mod c08;
+pub mod c09;
 
 pub fn all_ids() -> Vec<&'static str> {
-    vec!["C07"]
+    vec!["C07", "C08", "C09"]
 }
 
 pub fn get(id: &str) -> Option<Property> {
     match id {
         "C07" => Some(c07::property()),
+        "C08" => Some(c08::property()),
+        "C09" => Some(c09::property()),
         _ => None,
     }
 }
